@@ -189,7 +189,7 @@ func init() {
 			Run: func(P *Program, R *Report) { inPlaceDisciplineRule(P, R, "C11.j", "revocation.Proof", "revocation.Witness", "revocation.Accumulator") }},
 		Rule{ID: "C11.g", Explain: "determinism: on the verifier path no loop over a map returns a value that depends on which qualifying key was met first. revocationAttrIndex does (known finding K2).",
 			Run: func(P *Program, R *Report) { mapOrderVerdictRule(P, R) }},
-		Rule{ID: "C11.k", Explain: "the commitments C_r and C_u of a non-revocation proof are bases of the verified relations: VerifyWithChallenge accepts only if both are elements of the group - 0 < C < N (with C_r = C_u = 0 all reconstructed commitments are zero whatever the responses, so that a proof made without a witness verifies).",
+		Rule{ID: "C11.k", Explain: "the commitments C_r and C_u of a non-revocation proof are bases of the verified relations: VerifyWithChallenge accepts only if both are units modulo N - C > 0 and gcd(C, N) = 1 tested (with C_r = C_u = 0 mod N all reconstructed commitments are zero whatever the responses, so that a proof made without a witness verifies). No upper bound is demanded: ProofCommit.Update leaves C_u unreduced, and C11.i reports a verifier that refuses such a proof.",
 			Run: func(P *Program, R *Report) { revocationGroupElementsRule(P, R, "C11.k") }},
 		Rule{ID: "C11.l", Explain: "the by-name lookups through which the proof machinery reads the secrets, randomisers, responses and bases of the non-revocation proof (proofCommit.Secret/Randomizer/Base, proof.ProofResult, witness.Secret/Randomizer, accumulator.Base) answer each name with that name's own value: every return is the map lookup under the requested name, or - under a test name == k - the value tabled for k; every tabled name is answered; anything else returns nil. (A lookup that answers \"delta\" with beta's randomiser is used consistently by prover commitment and response, so every proof still verifies, while two responses share one randomiser.)",
 			Run: func(P *Program, R *Report) { lookupFaithfulRule(P, R, "C11.l", revocationLookups) }},
@@ -602,20 +602,22 @@ func revocationGroupElementsRule(P *Program, R *Report, rule string) {
 		f := f
 		// tested on the field itself, or in a loop over a literal list of the two (`for _, c := range []*big.Int{p.Cr, p.Cu}`)
 		subj := func(d string) bool { return d == revP+"."+f }
-		lower, upper := groupElementMatchers(P, subj, pkD+".N")
+		lower, _ := groupElementMatchers(P, subj, pkD+".N")
+		upper := invertibleMatcher(P, subj, pkD+".N")
 		for _, side := range []struct {
 			name, what string
 			m          func(a Atom) bool
-		}{{"positive", "0 < " + f, lower}, {"below-N", f + " < N", upper}} {
+		}{{"positive", "0 < " + f, lower}, {"invertible", "gcd(" + f + ", N) = 1", upper}} {
 			side := side
 			ok := mpQuiet(P, fn, AcceptTrue(0), &MustPass{Match: side.m})
 			detail := ""
 			if !ok.Holds {
 				// the loop form: every element of a literal list that contains the field is tested
-				lowerE, upperE := groupElementMatchers(P, func(d string) bool { return strings.HasSuffix(d, "[#i]") || strings.HasSuffix(d, "[*]") }, pkD+".N")
+				elem := func(d string) bool { return strings.HasSuffix(d, "[#i]") || strings.HasSuffix(d, "[*]") }
+				lowerE, _ := groupElementMatchers(P, elem, pkD+".N")
 				me := lowerE
-				if side.name == "below-N" {
-					me = upperE
+				if side.name == "invertible" {
+					me = invertibleMatcher(P, elem, pkD+".N")
 				}
 				fa := &ForAll{P: P, Spec: ForAllSpec{Coll: func(d string) bool { return strings.HasPrefix(d, "new:[") }, Body: func(fn2 *ssa.Function, l *Loop) *MustPass {
 					return &MustPass{Match: me}
@@ -633,7 +635,7 @@ func revocationGroupElementsRule(P *Program, R *Report, rule string) {
 				ok.Holds = m.Holds && inList
 				detail = ok.Path + " | loop form: " + m.Path
 			}
-			R.decide(rule, key+":"+f+":"+side.name, "accept => "+side.what+" (the commitment is a group element)", ok.Holds, detail, P.Pos(fn.Pos()))
+			R.decide(rule, key+":"+f+":"+side.name, "accept => "+side.what+" (the commitment is a unit modulo N)", ok.Holds, detail, P.Pos(fn.Pos()))
 		}
 	}
 }
